@@ -145,6 +145,29 @@ func runC12(c *Ctx) {
 			c.Cov["model_detects_4bit_mask"] = true
 		}
 	}
+	// unbounded: the same arithmetic over the integers; Apalache discharges the
+	// inductive invariant (Init => IndInv, IndInv /\ Next => IndInv') and the
+	// action invariant "a compressed step lands on the least t >= reference
+	// congruent to the offset" for all integers
+	obl := [][3]string{{"Init", "IndInv", "0"}, {"IndInit", "IndInv", "1"}, {"IndInit", "StepIsLeast", "1"}}
+	discharged := 0
+	for _, o := range obl {
+		n := 0
+		if o[2] == "1" {
+			n = 1
+		}
+		res, out := c.runApalache("TimestampInt", o[0], o[1], n)
+		switch res {
+		case "NoError":
+			discharged++
+		case "Error":
+			c.report("timestamp-inductive", "Apalache: "+o[1]+" is not inductive for the compressed-timestamp arithmetic (TimestampInt):\n"+tail(out, 1500), nil)
+		default:
+			c.die("apalache-mc failed on TimestampInt (%s/%s):\n%s", o[0], o[1], tail(out, 1500))
+		}
+	}
+	c.Cov["apalache_obligations"] = len(obl)
+	c.Cov["apalache_discharged"] = discharged
 	rng := newRng(c.Seed)
 	var calls []*Call
 	id := 0
